@@ -131,6 +131,31 @@ def make_api(r, shape, *, add_iam=False, mixins=False, collide=False):
 IAM_NAMES = ("SetIamPolicy", "GetIamPolicy", "TestIamPermissions")
 
 
+VOID_STREAM = "stubs.streaming_empty_response_treated_as_void"
+
+
+def registered(signature):
+    """the finding is in findings/known_findings.json (known or fixed): its inputs join the run; until then they are only in
+    scratch/findings (replayable) and the unchanged tree stays green"""
+    from ..main import load_findings
+    return any(f.get("property") == "C03" and f.get("signature") == signature for f in load_findings())
+
+
+def make_void_stream_api(r):
+    """server-streaming and bidi RPCs whose response is google.protobuf.Empty (plus a client-streaming one, which is unary on the
+    response side and rightly void)"""
+    api = A.FlatApi(r, reserved=False)
+    rq = api.zoo(api.main, "Alpha")
+    reply = api.zoo(api.main, "Reply")
+    svc = api.main.service("Library", host=api.host)
+    svc.rpc("WatchVoid", rq.fqn, U.EMPTY, ss=True)
+    svc.rpc("TalkVoid", rq.fqn, U.EMPTY, cs=True, ss=True)
+    svc.rpc("PushVoid", rq.fqn, U.EMPTY, cs=True)
+    svc.rpc("DropThing", rq.fqn, U.EMPTY)
+    svc.rpc("WatchThing", rq.fqn, reply.fqn, ss=True)
+    return api.request("transport=grpc"), None
+
+
 def make_iam_api(r, own_types, first=True):
     """several services; one that is not the last (first=True) declares rpcs NAMED like the IAM mixin methods, with request and
     response types of its own or google.iam.v1's; the service config lists the google.iam.v1.IAMPolicy mixin with http rules.
@@ -612,6 +637,13 @@ class ApiRun:
                 ctx.violation(f"emitted package does not import: {o['error']['exception']}: {o['error']['message'][:200]}", case, None)
                 return
             known = None
+            if m.server_streaming and m.output_type == U.EMPTY:
+                known = VOID_STREAM          # the stream is not handed to the caller (and the asyncio call is never issued)
+            fire_and_forget = variant == "Async" and m.client_streaming and not m.server_streaming and m.output_type == U.EMPTY
+            if fire_and_forget:
+                # known finding stubs.async_stream_unary_returns_call, void flavour: the call object that would have to be awaited
+                # a second time is dropped, the caller cannot wait for the requests to be delivered
+                known = "stubs.async_stream_unary_returns_call"
             if sum(1 for x in s.method if U.snake(x.name) == U.snake(m.name)) > 1:
                 known = "stubs.rpc_names_equal_after_snake_case"      # DESIGN section 9 no. 11
             # ---- observed, in model terms
@@ -621,7 +653,9 @@ class ApiRun:
             cm = f"(mkCM {coq.s(self.client_method_name(i, j))} Table {coq.s(self.facts['services'][s.name]['methods'][j]['safe_snake'])})"
             reps = coq.slist([hb(U.b64(x)) for x in replies])
             n_given = len(sent) if m.client_streaming else 1
-            if o["ok"] and npath is not None and res_term is not None:
+            if fire_and_forget:
+                ctx.features["async void client-streaming: delivery cannot be awaited (oracle only)"] += 1
+            elif o["ok"] and npath is not None and res_term is not None:
                 expr = (f"match dispatch {variant} {sv} {cm}, {me} with Some st, Some m => String.eqb (st_path st) {coq.s(npath)} && "
                         f"Nat.eqb (requests_on_wire m {n_given}) {nreq} && result_eqb (client_result m {reps}) {res_term} | _, _ => false end")
                 if not consume_ok:
@@ -937,15 +971,21 @@ def write_corpus():
     items.append(("w_iam_named_rpcs_own_types", req, 7, y))
     req, y = make_iam_api(env.rng("C03-w", 8), own_types=False)
     items.append(("w_iam_named_rpcs_iam_types", req, 8, y))
-    for tag, req, ri, y in items:
+    req, y = make_void_stream_api(env.rng("C03-w", 9))
+    items.append(("w_void_streams", req, 9, y, VOID_STREAM))
+    for it in items:
+        tag, req, ri, y = it[:4]
         with open(os.path.join(CORPUS, tag + ".json"), "w") as f:
-            json.dump({"tag": tag, "request_b64": apigen.req_b64(req), "rindex": ri, "service_yaml": y}, f, indent=1)
+            json.dump({"tag": tag, "request_b64": apigen.req_b64(req), "rindex": ri, "service_yaml": y,
+                       "runs_when_registered": it[4] if len(it) > 4 else None}, f, indent=1)
 
 
 def plan(ctx):
     jobs = []
     for name in sorted(os.listdir(CORPUS)) if os.path.isdir(CORPUS) else []:
         c = json.load(open(os.path.join(CORPUS, name)))
+        if c.get("runs_when_registered") and not registered(c["runs_when_registered"]):
+            continue
         jobs.append((c["tag"], apigen.req_from_b64(c["request_b64"]), c.get("rindex", 0), c.get("service_yaml")))
     ctx.oblige("corpus: the 9 witness APIs of corpus/C03 are present", len(jobs) >= 9, f"{len(jobs)} found", "build")
     n = ctx.n(7, 90)
@@ -955,6 +995,8 @@ def plan(ctx):
         try:
             if i % 8 == 6:
                 req, y = make_iam_api(r, own_types=r.random() < 0.5, first=r.random() < 0.7)
+            elif i % 8 == 2 and registered(VOID_STREAM):
+                req, y = make_void_stream_api(r)
             else:
                 req, y = make_api(r, ["same", "dep", "sub"][i % 3], add_iam=(i % 7 == 5), mixins=(i % 5 == 4))
             jobs.append((f"a{i}", req, i, y))
